@@ -23,8 +23,9 @@
    and the matching of the wrappers' initial conditions.  The heterogeneous
    pairwise, pair-based and individual-based regular-graph reductions are proved
    in the second part of this file over the hand-written models of Model/Rhs2D.v
-   (tied to the code by point evaluation on every run), against the GENERATED
-   homogeneous mean-field / homogeneous pairwise right-hand sides. *)
+   -- which the last part (theorems C07_generated_...) proves equal to the definitions
+   regenerated from the source on every run (Gen/Rhs2.v, translate/rhs2d2v.py) --
+   against the GENERATED homogeneous mean-field / homogeneous pairwise right-hand sides. *)
 From EoNV Require Import Prelude Graph Vec VecP Aux Rhs Rhs7P Rhs2D Rhs2DP Rhs2 Rhs2GenP.
 
 (* ---- regular graphs: single degree class k, Phi o rhs_big = rhs_small o Phi ---- *)
